@@ -1691,10 +1691,16 @@ class Authenticated(BaseClientHandler):
                     f"[TRYCREATE] No such mailbox: '{cmd.mailbox_name}'"
                 ) from exc
 
-        return self._format_copyuid(
-            dest_mbox,
-            [u for u in src_uids if u is not None],
-            [u for u in dst_uids if u is not None],
+        # (no response code at all when nothing was copied: a COPYUID with
+        # empty uid sets is not a valid response code.)
+        #
+        return (
+            self._format_copyuid(
+                dest_mbox,
+                [u for u in src_uids if u is not None],
+                [u for u in dst_uids if u is not None],
+            )
+            or None
         )
 
     ##################################################################
@@ -1766,7 +1772,8 @@ class Authenticated(BaseClientHandler):
         src_uid_list = [u for u in src_uids if u is not None]
         dst_uid_list = [u for u in dst_uids if u is not None]
         copyuid = self._format_copyuid(dest_mbox, src_uid_list, dst_uid_list)
-        await self.client.push(f"* OK {copyuid}\r\n")
+        if copyuid:
+            await self.client.push(f"* OK {copyuid}\r\n")
 
         # Phase 3: Re-acquire the source mailbox and expunge the moved
         # messages by their UIDs, regardless of the Deleted sequence.
@@ -1821,8 +1828,11 @@ class Authenticated(BaseClientHandler):
             dst_uids: List of destination UIDs
 
         Returns:
-            A string like "[COPYUID <uidvalidity> <src_uids> <dst_uids>]"
+            A string like "[COPYUID <uidvalidity> <src_uids> <dst_uids>]", or
+            the empty string if there are no uids to report.
         """
+        if not src_uids or not dst_uids:
+            return ""
         try:
             new_src_uids = [
                 list(x)
